@@ -317,18 +317,24 @@ def _thread_result(f, call, region, retloc, hname):
     elif tt["k"] == "switch" and tb["stmts"] and "discriminant" in tb["stmts"][-1].get("rv", {}) and not tb["stmts"][-1]["rv"]["discriminant"]["proj"] \
             and tb["stmts"][-1]["rv"]["discriminant"]["local"] == retloc:
         disp = ("direct", [T], T)
+    retty = f["locals"][retloc]["ty"]
+    if disp is None and retty == "bool" and tt["k"] == "switch":
+        pl = tt["discr"].get("move") or tt["discr"].get("copy")
+        if pl and not pl["proj"] and pl["local"] == retloc and not any(st.get("place", {}).get("local") == retloc for st in tb["stmts"]):
+            disp = ("bool", [T], T)
     if disp is None:
         return
     kind, dblocks, sw_id = disp
     sw = blocks[sw_id]["term"]
-    retty = f["locals"][retloc]["ty"]
     is_result = retty.startswith("std::result::Result<")
     is_option = retty.startswith("std::option::Option<")
-    if not (is_result or is_option):
+    if not (is_result or is_option or kind == "bool"):
         return
     # discriminant value -> arm; for `branch`: ControlFlow Continue=0 / Break=1; direct: Result Ok=0 Err=1, Option None=0 Some=1
     def arm_for(ok):
-        if kind == "branch":
+        if kind == "bool":
+            want = 1 if ok else 0
+        elif kind == "branch":
             want = 0 if ok else 1
         elif is_result:
             want = 0 if ok else 1
@@ -349,7 +355,10 @@ def _thread_result(f, call, region, retloc, hname):
             if st["k"] == "assign" and not st["place"]["proj"] and st["place"]["local"] == retloc:
                 rv = st["rv"]
                 a = rv.get("aggregate") if isinstance(rv, dict) else None
-                if a and a.get("kind") == "adt" and a.get("variant") in OKV + ERRV:
+                cb = ((rv.get("use") or {}).get("const") or {}).get("value") if isinstance(rv, dict) and isinstance(rv.get("use"), dict) else None
+                if kind == "bool":
+                    var = ("ok" if cb["bool"] else "err") if isinstance(cb, dict) and "bool" in cb else None
+                elif a and a.get("kind") == "adt" and a.get("variant") in OKV + ERRV:
                     var = "ok" if a["variant"] in OKV else "err"
                 else:
                     var = None
